@@ -544,6 +544,8 @@ def spec_sign_precomputed():
                     raise Mismatch('the fill loop can be left although free slots and attributes remain: a free slot named by the list is not filled')
                 return {}
             e = {'L:i': S('L:i') + 1}
+            if hit is None and done is True:
+                hit = False         # no attribute is left: there is nothing to compare the slot with, and nothing may be added
             if hit is None:
                 raise Mismatch('the fill step does not compare the free slot with the current attribute')
             if hit:
